@@ -9,7 +9,7 @@ use serde_json::{json, Value};
 use std::collections::HashMap;
 use std::rc::Rc;
 
-pub const RULE: &str = "multiset-of-classes model; after every insert/delete: return value, len(), is_empty() and query(y) for the whole universe; every 16 operations and at the end a deletable-count probe on a clone (delete a representative of each class until false; successes must equal the model count). (a) exhaustive DFS over all insert/delete histories of bounded length for (bucketsize 2, n_buckets 2, l 2) under a fixed eviction-RNG seed per hasher; (b) random histories for bucketsize 2..8, n_buckets 2..32, l in {2,3,5,8,13,64} with hostile RNGs and kick budgets. non-trivial = history with >= 1 eviction, failed insert, delete from second bucket or delete of an absent class; distinct = distinct (config, op sequence) hashes";
+pub const RULE: &str = "multiset-of-classes model; after every insert/delete: return value, len(), is_empty() and query(y) for the whole universe; every 16 operations and at the end a deletable-count probe on a clone (delete a representative of each class until false; successes must equal the model count). (a) exhaustive DFS over all insert/delete histories of bounded length for (bucketsize 2, n_buckets 2, l 2) under a fixed eviction-RNG seed per hasher; (b) random histories for bucketsize 2..8, n_buckets 2..32, l in {2,3,5,8,13,31,32,33,40,48,64}, occasionally buckets of 257..511 slots, with hostile RNGs and kick budgets. non-trivial = history with >= 1 eviction, failed insert, delete from second bucket or delete of an absent class; distinct = distinct (config, op sequence) hashes";
 pub const ASSUMPTIONS: &[&str] = &[
     "classes are defined by the filter under test (singleton filter reports the other element), with the collapse gate bounding over-approximation",
     "insert failures (Full) are legitimate whenever the filter holds >= bucketsize elements; their atomicity is C12's business",
@@ -372,7 +372,7 @@ pub fn pick_cfg(r: &mut FastRng, i: usize) -> CuckooCfg {
     let big = r.below(10) == 0;
     let mut cfg = pick_cuckoo(r, if big { 256 } else { 64 });
     cfg.n_buckets = cfg.n_buckets.min(32);
-    cfg.l = *r.pick(&[2usize, 2, 3, 5, 8, 13, 64]);
+    cfg.l = *r.pick(&[2usize, 2, 3, 5, 8, 13, 31, 32, 33, 40, 48, 64]);
     cfg.bh = match i % 4 {
         0 => CtlBuildHasher::layout(),
         1 | 2 => CtlBuildHasher::new(HMode::Mix, r.next()),
@@ -389,11 +389,11 @@ pub fn pick_cfg(r: &mut FastRng, i: usize) -> CuckooCfg {
 
 fn random_item(ctx: &Ctx, i: usize, rep: &mut Report) {
     let mut r = FastRng::new(ctx.sub_seed(&[2, i as u64]));
-    let cfg = pick_cfg(&mut r, i);
+    let cfg = if i % 128 == 63 { pick_cuckoo_wide_bucket(&mut r) } else { pick_cfg(&mut r, i) };
     let label = cfg.label();
     rep.config(&label);
     let cap = cfg.slots();
-    let usz = (cap * (1 + r.below(3) as usize)).clamp(8, 400);
+    let usz = if cap > 400 { 240 } else { (cap * (1 + r.below(3) as usize)).clamp(8, 400) };
     let universe = cuckoo_universe(&cfg, &mut r, usz);
     if universe.len() < 2 {
         return;
@@ -402,7 +402,7 @@ fn random_item(ctx: &Ctx, i: usize, rep: &mut Report) {
         return;
     };
     rep.count("class_discovery_queries", (universe.len() * universe.len()) as u64);
-    let hists = if cap > 64 { 3 } else { 10 };
+    let hists = if cap > 400 { 1 } else if cap > 64 { 3 } else { 10 };
     let mut queries = 0u64;
     for _ in 0..hists {
         let kb = match r.below(8) {
@@ -418,7 +418,7 @@ fn random_item(ctx: &Ctx, i: usize, rep: &mut Report) {
         c.rng = pick_rng(&mut r);
         let mut f = c.make();
         let mut m = Model::new(&cls, cfg.bucketsize);
-        let n_ops = 4 + r.below((cap as u64 * 4).clamp(8, 500)) as usize;
+        let n_ops = if cap > 400 { cap + 30 + r.below(60) as usize } else { 4 + r.below((cap as u64 * 4).clamp(8, 500)) as usize };
         let style = r.below(4);
         let hot = *r.pick(&universe);
         let mut hist: Vec<Op> = vec![];
